@@ -450,6 +450,10 @@ def spi_reference(x, valid_mask, window, alpha_beta=None):
         s = gamma_s(pos)
         if not s > 0:
             return {"fittable": None, "reason": "s not positive in float64", "p0": p0}
+        if s < 256 * U * max(1.0, float(np.max(np.abs(np.log(pos))))):
+            # positives that differ in their last digits only: s = log(mean) - mean(log) is a difference of nearly equal numbers and
+            # its sign / magnitude is rounding noise, so whether a fit exists at all is not decided by the definition in float64
+            return {"fittable": None, "reason": "s within rounding noise of zero", "p0": p0}
         alpha = gamma_alpha(s)
         if alpha is None:
             return {"fittable": None, "reason": "no root in bracket", "p0": p0}
